@@ -1,7 +1,7 @@
 SPECIFICATION Spec
 CONSTANTS
-  Accessors = {"params", "path", "originalurl", "protocol", "query", "queries", "formvalue", "header", "reqheaders", "cookies", "host", "hostname", "body", "bodyraw", "ip", "baseurl", "subdomains", "method", "rangetype", "routepath", "genericquery", "genericquerybytes", "genericparams", "bindquery", "bindform", "bindheader", "bindcookie", "binduri", "bindjson"}
-  Shapes = {"get", "unmatched", "form", "json", "identity", "unknownenc"}
+  Accessors = {"params", "path", "originalurl", "protocol", "query", "queries", "formvalue", "header", "reqheaders", "cookies", "host", "hostname", "body", "bodyraw", "ip", "baseurl", "subdomains", "method", "scheme", "ips", "rangetype", "routepath", "genericquery", "genericquerybytes", "genericparams", "bindquery", "bindform", "bindheader", "bindcookie", "binduri", "bindjson"}
+  Shapes = {"get", "forwarded", "forwardedlist", "unmatched", "form", "json", "identity", "unknownenc"}
   ReuseKinds = {"same", "shorter", "longer", "otherroute", "malformed"}
   MaxReuse = 5
   Scratch = {}
